@@ -10,7 +10,7 @@ from ..ref import ws as refws
 LEVEL = 'exploration'
 TECHNIQUE = 'runtime monitoring on a virtual clock: timestamp oracles for Poll, auto-Ping, Unresponsive and close timeout'
 BUDGET_S = {'quick': 30, 'thorough': 240}
-REQUIRED = {'all': ['oracle.poll_gaps_checked', 'oracle.autoping_multiples_checked', 'oracle.unresponsive_events',
+REQUIRED = {'all': ['oracle.reconnect_runs', 'oracle.poll_gaps_checked', 'oracle.autoping_multiples_checked', 'oracle.unresponsive_events',
                     'oracle.forced_disconnects', 'oracle.no_timeout_when_disabled', 'oracle.pongs_processed']}
 RULE = ('grid over poll p, ping_rate r, ping_timeout t, close_timeout c (incl. 0/None) x arrival histories on a '
         'virtual clock (pongs prompt / delayed / stopping / none; data arrivals regular, random and exactly on '
@@ -48,7 +48,7 @@ def cases(tier, seed, i, n):
                     yield dict(p=p, r=r, t=t, c=c, h=h, hseed=rnd.randrange(1 << 30))
         yield gen.mark('full grid poll x ping_rate x ping_timeout x close_timeout (3x5x5x4)')
         for _ in range(4000 if tier == 'quick' else 1500000):
-            yield dict(p=rnd.choice(POLLS + (0.25, 1.0, 3.0)), r=rnd.choice(RATES + (0.5, 2.0)),
+            yield dict(p=rnd.choice(POLLS + (0.25, 1.0, 3.0, 0.1, 0.3)), r=rnd.choice(RATES + (0.5, 2.0, 0.3, 0.1, 1.1)),
                        t=rnd.choice(PTIMEOUTS + (0.4, 2.0)), c=rnd.choice(CTIMEOUTS + (0.5, 2.0)),
                        h=rnd.choice(HIST), hseed=rnd.randrange(1 << 30))
     return gen.shard(allcases(), i, n)
@@ -120,6 +120,21 @@ def run_case(case, acc):
     w = H.World(H.hs_server(steps), horizon=horizon, stop_at=horizon, budget=60000)
     run = H.drive(w, connect_kwargs=dict(poll=p, ping_rate=r, ping_timeout=t, close_timeout=c), policy=H.TablePolicy(table))
     key, detail, fired = judge(case, run, w, acc, horizon)
+    if key is None and case['hseed'] % 3 == 0:
+        # reconnect: the same history once more on the SAME WebSocket object must obey the same timing rules
+        try:
+            with H.Installed(w):
+                run.gen.close()
+        except Exception:   # noqa
+            pass
+        steps2, table2, _h = build(case)
+        w2 = H.World(H.hs_server(steps2), horizon=horizon, stop_at=horizon, budget=60000)
+        run2 = H.drive(w2, ws=run.ws, connect_kwargs=dict(poll=p, ping_rate=r, ping_timeout=t, close_timeout=c), policy=H.TablePolicy(table2))
+        acc.count2('oracle', 'reconnect_runs')
+        key, detail, fired2 = judge(case, run2, w2, acc, horizon)
+        if key and key != 'INCONCLUSIVE':
+            key += ':on-reconnect'
+        run, w = run2, w2
     if key == 'INCONCLUSIVE':
         acc.inconclusive.append('C15 budget/odd end: %r %r' % (case, detail))
         return
